@@ -2,6 +2,8 @@ package io
 
 import (
 	"sync"
+	"sync/atomic"
+	"time"
 
 	"github.com/flanglet/kanzi-go/v2/entropy"
 	"github.com/flanglet/kanzi-go/v2/transform"
@@ -123,4 +125,39 @@ func H07_lostcancel_api() {
 	}
 	vhAssert(sawErr, "api-damage-reported")
 	vhAssert(total == 0, "api-lost-cancel")
+}
+
+// H07_encode_lostcancel_api: native-only twin for the encode-side obligations P3/P5. Forces the solver's schedule
+// by timing: task 1 is slow inside its critical section (second shared-stream operation sleeps), task 2 fails
+// before the wait (unknown transform type) and posts the cancel request, task 1 then finishes; task 3 only starts
+// afterwards. The cancel request must survive (counter == -1) and task 3 must terminate.
+func H07_encode_lostcancel_api() {
+	ctr := new(int32)
+	obs := &vhObs{failAt: -1, slowAt: 2}
+	var wg sync.WaitGroup
+	mk := func(id int32, tt uint64) (*encodingTask, *encodingTaskResult) {
+		in := blockBuffer{Buf: vhData(64, uint32(id))}
+		out := blockBuffer{Buf: make([]byte, 0)}
+		ctx := map[string]any{"transform": "NONE", "entropy": "NONE", "blockSize": uint(vhB), "jobs": uint(1), "bsVersion": uint(6)}
+		return &encodingTask{iBuffer: &in, oBuffer: &out, blockLength: 20, blockTransformType: tt,
+			blockEntropyType: entropy.NONE_TYPE, currentBlockID: id, processedBlockID: ctr, wg: &wg, obs: obs, ctx: ctx}, &encodingTaskResult{}
+	}
+	t1, r1 := mk(1, transform.NONE_TYPE)
+	t2, r2 := mk(2, uint64(40)<<42)
+	t3, r3 := mk(3, transform.NONE_TYPE)
+	wg.Add(2)
+	go t1.encode(r1)
+	time.Sleep(50 * time.Millisecond) // task 1 is now inside its (slow) critical section
+	go t2.encode(r2)
+	wg.Wait()
+	vhAssert(r2.err != nil, "api-task2-failed")
+	vhAssert(atomic.LoadInt32(ctr) == _CANCEL_TASKS_ID, "api-encode-lost-cancel")
+	wg.Add(1)
+	doneCh := make(chan bool, 1)
+	go func() { t3.encode(r3); doneCh <- true }()
+	select {
+	case <-doneCh:
+	case <-time.After(2 * time.Second):
+		vhAssert(false, "api-encode-lost-cancel")
+	}
 }
